@@ -5,7 +5,7 @@ from common import *
 HD = os.path.join(os.path.dirname(os.path.dirname(os.path.abspath(__file__))), 'harness')
 
 LEVEL_TEXT = 'bounded model checking (Kani/CBMC) of the real features.rs and of the edition gate statement of Builder::generate; all u64 minor/patch values, all editions, nightly'
-OUTSIDE = ['that each code-generation site consults its RustFeatures flag: decided for the ABI gate, the string-constant site and the C scalar type paths (raw_type / c_void) only; the other sites (offset_of!, unsafe extern, ptr_metadata) are token templates not encoded',
+OUTSIDE = ['that each code-generation site consults its RustFeatures flag: decided for the ABI gate, the string-constant site and the C scalar type paths (raw_type / c_void) only; the other sites (offset_of!, ptr_metadata / layout_for_ptr); unsafe extern blocks are decided at their two sites are token templates not encoded',
            'RustTarget::default() on the build-script path (runs rustc as a child process)']
 EXPLANATION = ('features.rs is compiled unchanged (E1 splice, harness is a child module); the solver quantifies over every '
                'minor/patch u64, edition and nightly. Oracle = stabilisation releases from the Rust release notes written in the harness.')
@@ -52,7 +52,20 @@ def build(tier, seed):
         raw_fn = extract(hel, r'^    pub\(crate\) fn raw_type\(', what='ast_ty::raw_type')
         cvoid_fn = extract(hel, r'^    pub\(crate\) fn c_void\(', what='ast_ty::c_void')
         rawsite = open(os.path.join(HD, 'c14_raw_type.rs')).read().replace('/*RAW_TYPE_FN*/', raw_fn).replace('/*C_VOID_FN*/', cvoid_fn)
-        text = src + '\n' + cstr + '\n' + rawsite + '\n' + open(os.path.join(HD, 'c14_features.rs')).read() + '\n' + \
+        sites = [mm.start() for mm in re.finditer(r'let safety = ', mod)]
+        if len(sites) != 2:
+            raise SliceError('codegen/mod.rs: expected two `let safety = ` statements (Var::codegen, Function::codegen), found %d' % len(sites))
+        stmts = []
+        for st in sites:
+            i = st
+            while mod[i] != ';':
+                i = match_brace(mod, i) if mod[i] in '({[' else i + 1
+            stmts.append(mod[st:i + 1])
+        if not (mod.rfind('impl CodeGenerator for Var', 0, sites[0]) > mod.rfind('impl CodeGenerator for Function', 0, sites[0]) and
+                mod.rfind('impl CodeGenerator for Function', 0, sites[1]) > mod.rfind('impl CodeGenerator for Var', 0, sites[1])):
+            raise SliceError('codegen/mod.rs: the `let safety` statements are not in Var::codegen / Function::codegen order')
+        extsite = open(os.path.join(HD, 'c14_extern_site.rs')).read().replace('/*VAR_SAFETY*/', stmts[0]).replace('/*FN_SAFETY*/', stmts[1])
+        text = src + '\n' + cstr + '\n' + rawsite + '\n' + extsite + '\n' + open(os.path.join(HD, 'c14_features.rs')).read() + '\n' + \
             open(os.path.join(HD, 'c14_gate.rs')).read().replace('/*GATE*/', gate) + '\n' + \
             open(os.path.join(HD, 'c14_abi_gate.rs')).read().replace('/*ABI_ENUM*/', abi_enum).replace('/*GATE_MATCH*/', gate_match)
         k = Kernel(name='features')
@@ -89,7 +102,10 @@ def build(tier, seed):
         k.harnesses.append(H('c_scalar_paths_exist_on_the_target', path='features::raw_type_site::proofs::c_scalar_paths_exist_on_the_target',
               desc='ast_ty::raw_type / ast_ty::c_void (real text) x real RustFeatures: core::ffi::c_int & co. only with --use-core on 1.64+ (and then always), std::os::raw otherwise, --ctypes-prefix first; c_void from core exactly with --use-core',
               sample={'target': 'any', 'edition': 'any', 'use_core': 'bool', 'ctypes_prefix': 'set or not'}))
-        k.encoded = [enc('codegen/helpers.rs', 'ast_ty::raw_type', raw_fn), enc('codegen/helpers.rs', 'ast_ty::c_void', cvoid_fn), enc('codegen/mod.rs', 'Var::codegen: VarType::String arm', arm), enc('ir/context.rs', 'BindgenContext::trait_prefix', tp), enc('ir/function.rs', 'FunctionSig::abi: feature gate match', gate_match), enc('features.rs', 'whole file (minus #[cfg(test)] mod)', rd('features.rs')), enc('lib.rs', 'Builder::generate edition gate statement', gate)]
+        k.harnesses.append(H('unsafe_extern_exactly_on_targets_that_have_it', path='features::extern_site::proofs::unsafe_extern_exactly_on_targets_that_have_it',
+              desc='the two `let safety = ..;` statements (Var::codegen, Function::codegen; real text) x real RustFeatures: `unsafe extern` exactly from 1.82 / nightly, for const and mutable statics and functions alike',
+              sample={'target': 'any', 'edition': 'any', 'static is const': 'bool'}))
+        k.encoded = [enc('codegen/mod.rs', 'Var::codegen: `let safety` statement', stmts[0]), enc('codegen/mod.rs', 'Function::codegen: `let safety` statement', stmts[1]), enc('codegen/helpers.rs', 'ast_ty::raw_type', raw_fn), enc('codegen/helpers.rs', 'ast_ty::c_void', cvoid_fn), enc('codegen/mod.rs', 'Var::codegen: VarType::String arm', arm), enc('ir/context.rs', 'BindgenContext::trait_prefix', tp), enc('ir/function.rs', 'FunctionSig::abi: feature gate match', gate_match), enc('features.rs', 'whole file (minus #[cfg(test)] mod)', rd('features.rs')), enc('lib.rs', 'Builder::generate edition gate statement', gate)]
         k.stubs = ['Builder/Options/BindgenError: three-field stub around the sliced gate statement']
         k.assumptions = ['gate harness: target was built by RustTarget::stable/nightly/from_str (minor >= 51), as every public constructor guarantees (checked by stable_constructor_and_constants)']
         k.bounds = ['minor, patch: all u64; editions: all; unwind 6 (feature/edition slices), 12 (release table)']
